@@ -44,11 +44,39 @@ use verif_harness::*;
 struct Fused {
     v: u64,
     bomb: bool,
+    /// `close()` parks here until the harness lets it go on (a slow / blocking user `close()`)
+    gate: Option<Arc<CloseGate>>,
+}
+
+/// (the closing thread is inside `close()`, it may go on)
+#[derive(Default)]
+struct CloseGate {
+    st: Mutex<(bool, bool)>,
+    cv: std::sync::Condvar,
+}
+
+impl CloseGate {
+    fn wait_reached(&self, max: std::time::Duration) -> bool {
+        let st = self.st.lock().unwrap();
+        let (st, _) = self.cv.wait_timeout_while(st, max, |s| !s.0).unwrap();
+        st.0
+    }
+    fn release(&self) {
+        self.st.lock().unwrap().1 = true;
+        self.cv.notify_all();
+    }
 }
 
 impl metrique::CloseValue for Fused {
     type Closed = u64;
     fn close(self) -> u64 {
+        if let Some(g) = &self.gate {
+            let mut st = g.st.lock().unwrap();
+            st.0 = true;
+            g.cv.notify_all();
+            // (bounded, so that a harness error cannot hang the run)
+            let _ = g.cv.wait_timeout_while(st, std::time::Duration::from_secs(20), |s| !s.1).unwrap();
+        }
         if self.bomb {
             std::panic::panic_any(Contained)
         }
@@ -63,7 +91,7 @@ struct Child {
 }
 
 fn child(v: u64) -> Child {
-    Child { val: Fused { v, bomb: false } }
+    Child { val: Fused { v, bomb: false, gate: None } }
 }
 
 #[metrics]
@@ -186,6 +214,10 @@ enum Op {
     Gc(usize),
     /// drop slot guard `i` while its value's `close()` panics (contained): the sender goes away without sending
     Gdp(usize),
+    /// gated close: slot guard `i` is dropped on a thread of its own whose `close()` parks; meanwhile the owner, every
+    /// handle and every free flush guard are dropped here; then `close()` goes on.  For the property this is
+    /// `dref… dfg… gd:i` (the guard's drop finishes last; the flush guard it holds is released only after its send).
+    Gdg(usize),
     /// replace slot field `i` by a fresh `Slot::new(v)` / `LazySlot::default()`; its guard, if alive, becomes the newest orphan
     Rep(usize, u64),
     /// `delay_flush(free flush guard)` on / mutate through / drop / drop-with-panicking-close the newest orphan guard
@@ -220,6 +252,7 @@ impl Op {
             Op::Gd(i) => format!("gd:{i}"),
             Op::Gc(i) => format!("gc:{i}"),
             Op::Gdp(i) => format!("gdp:{i}"),
+            Op::Gdg(i) => format!("gdg:{i}"),
             Op::Rep(i, v) => format!("rep:{i}:{v}"),
             Op::Odelay => "odelay".into(),
             Op::Ogm(v) => format!("ogm:{v}"),
@@ -253,6 +286,7 @@ impl Op {
             ("gd", 2) => Op::Gd(n(1)? as usize),
             ("gc", 2) => Op::Gc(n(1)? as usize),
             ("gdp", 2) => Op::Gdp(n(1)? as usize),
+            ("gdg", 2) => Op::Gdg(n(1)? as usize),
             ("rep", 3) => Op::Rep(n(1)? as usize, n(2)?),
             ("odelay", 1) => Op::Odelay,
             ("ogm", 2) => Op::Ogm(n(1)?),
@@ -303,6 +337,7 @@ impl Shadow {
             Op::Wb(i) => own && i < 2,
             Op::Wp | Op::Wc => self.fut,
             Op::Gm(i, _) | Op::Gd(i) | Op::Gc(i) | Op::Gdp(i) => i < NSLOTS && self.guards[i],
+            Op::Gdg(i) => i < NSLOTS && self.guards[i] && !self.fut,
             Op::Rep(i, _) => own && i < NSLOTS,
             Op::Odelay => self.orphans > 0 && self.fgs > 0,
             Op::Ogm(_) | Op::Ogd | Op::Ogdp => self.orphans > 0,
@@ -351,6 +386,12 @@ impl Shadow {
             Op::Wb(_) | Op::Wp => self.fut = !ready,
             Op::Wc => self.fut = false,
             Op::Gd(i) | Op::Gdp(i) => self.guards[i] = false,
+            Op::Gdg(i) => {
+                self.guards[i] = false;
+                self.owner = false;
+                self.handles = 0;
+                self.fgs = 0
+            }
             Op::Rep(i, _) => {
                 if self.guards[i] {
                     self.guards[i] = false;
@@ -474,6 +515,7 @@ impl Oracle {
                     self.fg_total -= 1
                 }
             }
+            Op::Gdg(_) => unreachable!("judged through its expansion, see `run_case_here`"),
             // the field is a fresh slot again; whatever the old slot had received is gone with it; a guard that is
             // still alive lives on as an orphan and keeps the flush guard it holds
             Op::Rep(i, v) => {
@@ -994,6 +1036,32 @@ impl World {
                 g.val.bomb = true;
                 bomb_drop(env, pm, g)
             }
+            Op::Gdg(i) => {
+                let mut g = self.guards[i].take().unwrap();
+                let gate = Arc::new(CloseGate::default());
+                g.val.gate = Some(gate.clone());
+                let t = std::thread::spawn(move || catch(move || drop(g)));
+                let parked = gate.wait_reached(std::time::Duration::from_secs(10));
+                // while the value's `close()` is parked: the owner, every handle, every free flush guard go away here
+                let r = catch(|| {
+                    drop(self.owner.take());
+                    self.handles.clear();
+                    self.fgs.clear();
+                });
+                // what the sink has at this instant (the guard has not sent yet, its flush guard is still held)
+                let mid = self.sink.len();
+                gate.release();
+                let tr = t.join();
+                if let Err(p) = r {
+                    std::panic::resume_unwind(Box::new(p));
+                }
+                match tr {
+                    Ok(Ok(())) => {}
+                    Ok(Err(p)) => std::panic::resume_unwind(Box::new(p)),
+                    Err(p) => std::panic::resume_unwind(p),
+                }
+                res = if parked { format!("m{mid}") } else { "unparked".into() };
+            }
             Op::Rep(i, v) => {
                 let o = self.owner.as_mut().unwrap();
                 match i {
@@ -1090,6 +1158,7 @@ fn run_case_here(c: &Case, slots_checked: bool) -> Outcome {
         if !sh.valid(op) {
             continue;
         }
+        let (refs_before, fgs_before) = (sh.owner as usize + sh.handles, sh.fgs);
         let r = catch(|| w.exec(op));
         let (res, open_ok, ready) = match r {
             Ok(x) => x,
@@ -1113,7 +1182,27 @@ fn run_case_here(c: &Case, slots_checked: bool) -> Outcome {
             out.appended_at = Some(out.ops.len() - 1);
         }
         // --- oracle
-        let mut want = or.step(op);
+        let mut want;
+        if let Op::Gdg(i) = *op {
+            // the property's reading of a gated close: everything else is dropped first, the guard's drop finishes last
+            for _ in 0..refs_before {
+                or.step(&Op::Dref);
+            }
+            for _ in 0..fgs_before {
+                or.step(&Op::Dfg);
+            }
+            let mid = or.appended.is_some() as usize;
+            or.step(&Op::Gd(i));
+            want = format!("m{mid}");
+            if out.fail.is_none() && res != want {
+                out.fail = Some((
+                    "keepalive:append-moment".into(),
+                    format!("{}: while the slot guard's drop was still inside the value's close() (nothing sent, its flush guard still held) and the owner, handles and free flush guards had been dropped, the sink had {res} entries, the property demands {want}", op.enc()),
+                ));
+            }
+        } else {
+            want = or.step(op);
+        }
         if let Op::Wp = *op {
             want = or.wait_answer(fut_slot);
         }
@@ -1320,7 +1409,7 @@ impl GenState {
                 ready = self.gdropped[i]
             }
             Op::Wp => ready = self.gdropped[self.fut_slot],
-            Op::Gd(i) | Op::Gdp(i) => self.gdropped[i] = true,
+            Op::Gd(i) | Op::Gdp(i) | Op::Gdg(i) => self.gdropped[i] = true,
             Op::Rep(i, _) => {
                 self.opened[i] = false;
                 self.gdropped[i] = false
@@ -1369,7 +1458,7 @@ fn family_x() -> Family {
         alphabet: vec![
             Op::Fg, Op::Dg, Op::Dref, Op::Dfg, Op::Ddg,
             Op::Open(0, true, 0), Op::Open(0, false, 0), Op::Open(1, true, 0),
-            Op::Gm(0, 9), Op::Gd(0), Op::Gd(1), Op::Gdp(0), Op::Rep(0, 8), Op::Odelay, Op::Ogd, Op::Wb(0), Op::Wc,
+            Op::Gm(0, 9), Op::Gd(0), Op::Gd(1), Op::Gdp(0), Op::Gdg(0), Op::Rep(0, 8), Op::Odelay, Op::Ogd, Op::Wb(0), Op::Wc,
         ],
         max_fg: 2,
         max_dg: 1,
@@ -1459,6 +1548,9 @@ fn random_case_opts(rng: &mut Rng, slots: bool, tail: bool, max_len: u64) -> Cas
             cands.push((3, Op::Gd(i)));
             cands.push((1, Op::Delay(i)));
             cands.push((1, Op::Gc(i)));
+            if tail {
+                cands.push((1, Op::Gdg(i)));
+            }
             if x_ops {
                 cands.push((1, Op::Gdp(i)));
                 cands.push((1, Op::Rep(i, rng.below(50))));
@@ -1675,13 +1767,14 @@ thread_local! {
 static GATE: Mutex<(bool, bool)> = Mutex::new((false, false));
 static GATE_CV: std::sync::Condvar = std::sync::Condvar::new();
 
-const N_GATED: usize = 5;
+const N_GATED: usize = 6;
 const GATED_NAMES: [&str; N_GATED] = [
     "owner dropped, free flush guard alive, 2 force-flush guards: A held between take and run, B drops the other",
     "same, the flush guard sits in a wait-mode slot guard and the owner was finished by Instrumented::emit",
     "same, owner turned into handles, all dropped",
     "owner alive, flush guard alive: force-flush thread A held between take and run, B drops the owner",
     "owner dropped, flush guard alive, 3 force-flush guards: A held, B and C drop theirs",
+    "wait-mode slot guard A parked inside its value's close() (before the send); owner and free flush guard dropped meanwhile",
 ];
 
 /// A gated schedule (deterministic): thread A drops a force-flush guard and is held at perturbation point 11 (closure
@@ -1689,7 +1782,59 @@ const GATED_NAMES: [&str; N_GATED] = [
 /// go on and joins everybody.  In the code as it is, a second force-flush drop blocks on the mutex until A has run the
 /// closure (and appended); a B that returns earlier with the owner gone and nothing appended is what the history
 /// oracles reject (`trace:force-late`).  The bounded wait only costs time in the passing case.
+/// Gated close (kind 5): the slot guard's thread parks inside `CloseValue::close()` — before `tx.send`, so outside hook
+/// point 13 —, the owner and the free flush guard are dropped meanwhile, then `close()` goes on.  The guard still holds its
+/// flush guard while parked, so the entry must be appended only after its send, with the value.
+fn run_gated_close() -> TraceOut {
+    let case = Case { init: [3, 6], ops: vec![Op::Fg, Op::Open(0, true, 0), Op::Gm(0, 9), Op::Fg, Op::Mut(4)] };
+    let hist = Arc::new(Mutex::new(Vec::<String>::new()));
+    let sink = RecSink { hist: Some(hist.clone()), ..Default::default() };
+    let (mut w, done_setup) = setup_world(&case, sink, &hist);
+    let Ok(setup_ops) = done_setup else {
+        return TraceOut { setup: case.ops.clone(), hist: hist.lock().unwrap().clone(), racers: 0, panicked: done_setup.err() };
+    };
+    let mut g = w.guards[0].take().expect("gated close setup opened slot 0");
+    let gate = Arc::new(CloseGate::default());
+    g.val.gate = Some(gate.clone());
+    let log = |s: String| hist.lock().unwrap().push(s);
+    let mut panicked = None;
+    std::thread::scope(|sc| {
+        let h = hist.clone();
+        let a = sc.spawn(move || {
+            let log = |s: String| h.lock().unwrap().push(s);
+            catch(move || {
+                log("bG:0".into());
+                drop(g);
+                log("eG:0".into());
+            })
+        });
+        gate.wait_reached(std::time::Duration::from_secs(10));
+        let r = catch(|| {
+            log("bR".into());
+            drop(w.owner.take());
+            log("eR".into());
+            for f in w.fgs.drain(..) {
+                log("bF".into());
+                drop(f);
+                log("eF".into());
+            }
+        });
+        gate.release();
+        if let Err(p) = r {
+            panicked = Some(p);
+        }
+        if let Ok(Err(p)) = a.join() {
+            panicked = Some(p);
+        }
+    });
+    let h = hist.lock().unwrap().clone();
+    TraceOut { setup: setup_ops, hist: h, racers: 3, panicked }
+}
+
 fn run_gated(kind: u8) -> TraceOut {
+    if kind == 5 {
+        return run_gated_close();
+    }
     let setup: Vec<Op> = match kind {
         0 => vec![Op::Fg, Op::Dg, Op::Dg, Op::Mut(5), Op::Dref],
         1 => vec![Op::Fg, Op::Open(0, true, 0), Op::Dg, Op::Dg, Op::Gm(0, 9), Op::Fin(1, 0)],
